@@ -51,12 +51,179 @@ def replay_index(m):
     return rep, "; ".join(details)
 
 
+# ---- BondList methods: guided concrete search against the reference mapping ------------------
+
+import random
+
+
+def _lists(rng, count):
+    """small well-formed lists: (atom count, canonical rows)"""
+    out = []
+    for _ in range(count):
+        n = rng.randint(1, 6)
+        d = {}
+        for _ in range(rng.randint(0, 7)):
+            i, j = rng.randrange(n), rng.randrange(n)
+            d.setdefault((min(i, j), max(i, j)), rng.randrange(10))
+        rows = [(i, j, t) for (i, j), t in d.items()]
+        rng.shuffle(rows)
+        out.append((n, rows))
+    return out
+
+
+def _occ_max(n, rows):
+    c = [0] * max(n, 1)
+    for i, j, _ in rows:
+        c[i] += 1
+        c[j] += 1
+    return max(c) if rows else 0
+
+
+def _obj(n, rows, slack=0):
+    return {"obj": "BondList", "attrs": {"_atom_count": {"cv": n, "ctype": "uint32"},
+                                         "_bonds": {"array": [list(r) for r in rows], "ctype": "uint32", "memview": False,
+                                                    "shape": [len(rows), 3], "ndim": 2},
+                                         "_max_bonds_per_atom": {"cv": _occ_max(n, rows) + slack, "ctype": "uint32"}}}
+
+
+def _mapping(rows):
+    return {(r[0], r[1]): r[2] for r in rows}
+
+
+def _state(out, k=0):
+    """(atom count, rows, cached maximum) of the list after the call: engine dump or compiled object"""
+    a = out["args_after"][k]["attrs"] if "args_after" in out else out["state"]
+    return a["_atom_count"], [tuple(r) for r in a["_bonds"]], a["_max_bonds_per_atom"]
+
+
+def _compiled_state(b):
+    return {"_atom_count": b.get_atom_count(), "_bonds": b.as_array().tolist(),
+            "_max_bonds_per_atom": int(b._max_bonds_per_atom)}
+
+
+def replay_method(case, rec):
+    import numpy as np
+    from biotite.structure import BondList
+    meth = case.split("::")[1].split("[")[0].split(".")[1]
+    rng = random.Random(7)
+    lists = _lists(rng, 60)
+    inputs = []
+    for n, rows in lists:
+        a1, a2, t = rng.randrange(-n, n), rng.randrange(-n, n), rng.randrange(10)
+        if rows and rng.random() < 0.5:
+            a1, a2 = rows[0][1], rows[0][0] - n
+        other = _lists(rng, 1)[0]
+        inputs.append({"n": n, "rows": rows, "a1": a1, "a2": a2, "t": t, "other": (n, [r for r in other[1] if r[1] < n] + rows[:1])})
+
+    def mk(inp):
+        return BondList(inp["n"], np.array(inp["rows"], dtype=np.int64).reshape(-1, 3)) if inp["rows"] else BondList(inp["n"])
+
+    def norm(i, n):
+        return i + n if i < 0 else i
+
+    if meth == "get_bonds":
+        to_args = lambda inp: [_obj(inp["n"], inp["rows"]), {"cv": inp["a1"], "ctype": "int32"}]
+        call = lambda inp: {"value": [x.tolist() for x in mk(inp).get_bonds(inp["a1"])]}
+
+        def oracle(inp, out):
+            if out.get("outcome") != "return":
+                return f"raised {out.get('exception')}"
+            a = norm(inp["a1"], inp["n"])
+            exp = [((j if i == a else i), t) for i, j, t in inp["rows"] if a in (i, j)]
+            got = list(zip(out["value"][0], out["value"][1]))
+            return None if got == exp else f"get_bonds({inp['a1']}) = {got}, rows incident to the atom give {exp}"
+    elif meth == "get_all_bonds":
+        to_args = lambda inp: [_obj(inp["n"], inp["rows"])]
+        call = lambda inp: {"value": [x.tolist() for x in mk(inp).get_all_bonds()]}
+
+        def oracle(inp, out):
+            if out.get("outcome") != "return":
+                return f"raised {out.get('exception')}"
+            for a in range(inp["n"]):
+                exp = sorted(((j if i == a else i), t) for i, j, t in inp["rows"] if a in (i, j))
+                got = sorted((x, t) for x, t in zip(out["value"][0][a], out["value"][1][a]) if x != -1)
+                if got != exp:
+                    return f"get_all_bonds row {a} = {got}, expected {exp}"
+            return None
+    elif meth == "_get_max_bonds_per_atom":
+        to_args = lambda inp: [_obj(inp["n"], inp["rows"])]
+        call = lambda inp: {"value": int(mk(inp)._get_max_bonds_per_atom())}
+
+        def oracle(inp, out):
+            if out.get("outcome") != "return":
+                return f"raised {out.get('exception')}"
+            return None if out["value"] == _occ_max(inp["n"], inp["rows"]) else f"_get_max_bonds_per_atom = {out['value']}, occurrences give {_occ_max(inp['n'], inp['rows'])}"
+    elif meth == "__contains__":
+        to_args = lambda inp: [_obj(inp["n"], inp["rows"]), {"tuple": [norm(inp["a1"], inp["n"]), norm(inp["a2"], inp["n"])]}]
+        call = lambda inp: {"value": (norm(inp["a1"], inp["n"]), norm(inp["a2"], inp["n"])) in mk(inp)}
+
+        def oracle(inp, out):
+            if out.get("outcome") != "return":
+                return f"raised {out.get('exception')}"
+            a, b = sorted((norm(inp["a1"], inp["n"]), norm(inp["a2"], inp["n"])))
+            exp = (a, b) in _mapping(inp["rows"])
+            return None if bool(out["value"]) == exp else f"({a},{b}) in list = {out['value']}, mapping says {exp}"
+    elif meth in ("add_bond", "remove_bond", "remove_bonds_to", "remove_bonds"):
+        def to_args(inp):
+            o = _obj(inp["n"], inp["rows"])
+            if meth == "add_bond":
+                return [o, {"cv": inp["a1"], "ctype": "int32"}, {"cv": inp["a2"], "ctype": "int32"}, inp["t"]]
+            if meth == "remove_bond":
+                return [o, {"cv": inp["a1"], "ctype": "int32"}, {"cv": inp["a2"], "ctype": "int32"}]
+            if meth == "remove_bonds_to":
+                return [o, {"cv": inp["a1"], "ctype": "int32"}]
+            return [o, _obj(*inp["other"])]
+
+        def call(inp):
+            b = mk(inp)
+            if meth == "add_bond":
+                b.add_bond(inp["a1"], inp["a2"], inp["t"])
+            elif meth == "remove_bond":
+                b.remove_bond(inp["a1"], inp["a2"])
+            elif meth == "remove_bonds_to":
+                b.remove_bonds_to(inp["a1"])
+            else:
+                o = BondList(inp["other"][0], np.array(inp["other"][1], dtype=np.int64).reshape(-1, 3)) if inp["other"][1] else BondList(inp["other"][0])
+                b.remove_bonds(o)
+            return {"state": _compiled_state(b)}
+
+        def oracle(inp, out):
+            if out.get("outcome") != "return":
+                return f"raised {out.get('exception')}"
+            n = inp["n"]
+            m = _mapping(inp["rows"])
+            a, b = sorted((norm(inp["a1"], n), norm(inp["a2"], n)))
+            if meth == "add_bond":
+                m[(a, b)] = inp["t"]
+            elif meth == "remove_bond":
+                m.pop((a, b), None)
+            elif meth == "remove_bonds_to":
+                x = norm(inp["a1"], n)
+                m = {k: t for k, t in m.items() if x not in k}
+            else:
+                rm = {(r[0], r[1]) for r in inp["other"][1]}
+                m = {k: t for k, t in m.items() if k not in rm}
+            cnt, rows, mx = _state(out)
+            got = {(r[0], r[1]): r[2] for r in rows}
+            if cnt != n or got != m or len(rows) != len(m):
+                return f"{meth} on {inp['rows']} with ({inp['a1']},{inp['a2']},{inp['t']}): list holds {sorted(got.items())}, mapping is {sorted(m.items())}"
+            if mx < _occ_max(n, rows):
+                return f"{meth}: cached maximum {mx} below the occurrences {_occ_max(n, rows)} of the new list"
+            return None
+    else:
+        return None, "no replay for this obligation"
+    from replayers.common import run_search
+    return run_search(BONDS, case.split("[")[0], inputs, to_args, oracle, compiled_call=call, label="BondList." + meth)
+
+
 def main():
     rec = json.load(open(sys.argv[1]))
     m = rec.get("model", {})
     try:
         if "_to_positive_index" in rec["case"]:
             rep, detail = replay_index(m)
+        elif "BondList." in rec["case"]:
+            rep, detail = replay_method(rec["case"], rec)
         else:
             rep, detail = None, "no replay for this obligation"
     except Exception:
